@@ -299,7 +299,74 @@ def rule_self_exclusion(repo, rep):
                     'on a path without the diagonal set to infinity')
 
 
+# -------------------------------------------------- LMNN objective weights
+from ..ratfunc import Rat, LinM, eval_expr
+
+
+def rule_lmnn_objective(repo, rep):
+  R = 'R-FORM:lmnn-objective-weights'
+  rep.rule(R, 'LMNN._loss_grad combines the pull (target-neighbour) term '
+           'with weight reg and the push (active impostor) term with weight '
+           '1 - reg: G = reg dfG + (1 - reg) df mapped through L, objective '
+           '= (1 - reg) total_active + <L G, L>, and the returned gradient is '
+           '2 L G (derivative of tr(L G L^T) for the symmetric G)')
+  f = repo.get_func('lmnn.LMNN._loss_grad')
+  rep.analysed(f)
+  stm = [s for s in f.node.body if isinstance(s, (ast.Assign, ast.AugAssign))]
+  reg = Rat.sym('reg')
+  one = Rat.const(1)
+  gdefs = [s for s in stm if isinstance(s, ast.Assign) and
+           ast.unparse(s.targets[0]) == 'G']
+  if len(gdefs) != 2:
+    rep.unknown(R, 'lmnn.LMNN._loss_grad:G', site(f), 'G is assigned %d '
+                'times' % len(gdefs))
+    return
+  v = eval_expr(gdefs[0].value, {'reg': 'reg'}, {'dfG': 'pull', 'df': 'push'})
+  want = LinM.atom('pull').scale(reg) + LinM.atom('push').scale(one - reg)
+  if v is None:
+    rep.unknown(R, 'lmnn.LMNN._loss_grad:G', site(f, gdefs[0]),
+                'weighting not derivable')
+  else:
+    rep.add(R, 'lmnn.LMNN._loss_grad:G', 'derived' if v == want else
+            'refuted', site(f, gdefs[0]), '' if v == want else 'G is %r, '
+            'documented %r' % (v, want),
+            sample=dict(rule=R, weighting=repr(v)))
+  ok2 = ast.unparse(gdefs[1].value) in ('L.dot(G)', 'np.dot(L, G)', 'L @ G')
+  rep.add(R, 'lmnn.LMNN._loss_grad:LG', 'derived' if ok2 else 'unknown',
+          site(f, gdefs[1]), '' if ok2 else 'G = %s not recognised as L G'
+          % ast.unparse(gdefs[1].value))
+  obj = [s for s in stm if ast.unparse(
+      s.targets[0] if isinstance(s, ast.Assign) else s.target) == 'objective']
+  if len(obj) == 2 and isinstance(obj[0], ast.Assign) and \
+          isinstance(obj[1], ast.AugAssign):
+    v0 = eval_expr(obj[0].value, {'reg': 'reg', 'total_active': 'act'}, {})
+    w0 = Rat.sym('act') * (one - reg)
+    a = ast.unparse(obj[1].value)
+    ok = isinstance(v0, Rat) and v0 == w0 and isinstance(obj[1].op, ast.Add) \
+        and a in ('G.flatten().dot(L.flatten())', 'np.sum(G * L)',
+                  'L.flatten().dot(G.flatten())', 'np.sum(L * G)',
+                  'G.ravel().dot(L.ravel())')
+    rep.add(R, 'lmnn.LMNN._loss_grad:objective', 'derived' if ok else
+            'refuted' if isinstance(v0, Rat) and v0 != w0 else 'unknown',
+            site(f, obj[0]), '' if ok else 'objective is %s; %s'
+            % (ast.unparse(obj[0].value), ast.unparse(obj[1])))
+  else:
+    rep.unknown(R, 'lmnn.LMNN._loss_grad:objective', site(f), 'objective '
+                'statements not recognised')
+  ret = [r for r in ast.walk(f.node) if isinstance(r, ast.Return)]
+  if ret and isinstance(ret[0].value, ast.Tuple) and ret[0].value.elts:
+    g0 = eval_expr(ret[0].value.elts[0], {}, {'G': 'LG'})
+    ok = g0 is not None and g0 == LinM.atom('LG').scale(Rat.const(2))
+    rep.add(R, 'lmnn.LMNN._loss_grad:gradient', 'derived' if ok else
+            ('refuted' if g0 is not None else 'unknown'), site(f, ret[0]),
+            '' if ok else 'returned gradient is %s, the derivative of '
+            '<L G, L> is 2 L G' % ast.unparse(ret[0].value.elts[0]))
+
+
 def check(repo, rep, tier):
   rule_lmnn_acceptance(repo, rep)
   rule_optimizer_handoff(repo, rep)
   rule_self_exclusion(repo, rep)
+  rule_lmnn_objective(repo, rep)
+
+
